@@ -150,6 +150,16 @@ def evaluate(ctx, cases, stream):
                 bad.append({'read': rd, 'impl': ir, 'model': mr})
                 if len(bad) > 4:
                     break
+        # value queries that are not integers (the model works over Int): on an int matrix nothing equals 0.5, 1.5, nan or inf,
+        # and such a query is not an error
+        if case[0] != 'csr' or case[1]['dtype'] == 'int':
+            R_ = case[1]['shape'][0] if case[0] == 'csr' else case[0][0]
+            for r in range(R_):
+                for q in (0.5, 1.5, -0.5, float('nan'), float('inf'), 2.000001):
+                    ir = impl_read(m, ['cols', r, q])
+                    if ir != {'ok': []}:
+                        bad.append({'read': ['cols', r, repr(q)], 'impl': ir, 'model': {'ok': []}})
+                        break
         ctx.case(canon_case, nt, stream,
                  sample={'case': canon_case, 'reads': len(req['reads'])} if nt else None)
         ctx.count('reads', len(req['reads']))
